@@ -204,11 +204,16 @@ class Gfa(Lines,GraphOperations,RGFA):
       self._progress_log_init("read_file", "lines", linecount,
                               "Parsing file {}".format(filename)+
                               " containing {} lines".format(linecount))
-    with open(filename) as f:
-      for line in f:
-        self.add_line(line.rstrip('\r\n'))
-        if self._progress:
-          self._progress_log("read_file")
+    try:
+      with open(filename) as f:
+        for line in f:
+          self.add_line(line.rstrip('\r\n'))
+          if self._progress:
+            self._progress_log("read_file")
+    except UnicodeDecodeError as err:
+      raise gfapy.FormatError(
+        "The content of file {} is not valid text\n".format(filename)+
+        "Error: {}".format(err))
     if self._line_queue:
       self._version = self._version_guess
       self.process_line_queue()
